@@ -1,4 +1,5 @@
 import BoolFn.Proofs.Oracle3
+import BoolFn.Props.C01
 import BoolFn.Proofs.Recipe
 import BoolFn.Proofs.Oracle
 import BoolFn.Proofs.Table
@@ -133,5 +134,42 @@ theorem expr_ignores_foreign (v : PVal α) (d : Bool) (k : α) (b : Bool) (e : E
 /-- non-vacuity: a concrete expression, a partial valuation with a foreign key, both defaults -/
 example : (Expr.and [.lit "a", .not (.lit "b")]).eval [("a", true), ("zz", false)] false = true := by decide
 example : (Expr.and [.lit "a", .not (.lit "b")]).eval [("a", true), ("zz", false)] true = false := by decide
+
+/-! ### the table and diagram *forms of an expression* evaluate like the expression
+
+C02 speaks of "expressions, their table and BDD forms". With the conversion theorems of C01 the
+evaluation theorems above give: the converted object returns, in every mode, what the expression
+returns (`eval.of` observes this on the implementation). -/
+section
+variable [Ord α] [Std.TransOrd α] [Std.LawfulEqOrd α]
+
+theorem table_form_default (v : PVal α) (d : Bool) (e : Expr α) :
+    (exprToTable e).eval v d = e.eval v d := by
+  obtain ⟨hwf, _, hden⟩ := C01.exprToTable_den e
+  rw [(table_default v d _ hwf).1, hden, expr_default]
+
+theorem table_form_checked (v : PVal α) (e : Expr α) (hall : ∀ x ∈ e.vars, x ∈ v.keys) :
+    (exprToTable e).evalChecked v = e.evalChecked v := by
+  obtain ⟨_, hins, hden⟩ := C01.exprToTable_den e
+  rw [expr_checked v e hall, table_checked v _ (by
+    intro x hx
+    rw [hins] at hx
+    exact hall x ((mem_sortDedup x _).mp hx)), hden]
+
+theorem bdd_form_default (e : Expr α) (hsmall : e.inputs.length ≤ maxBddVars) :
+    ∃ b, exprToBdd e = .ok (.ok b) ∧ ∀ (v : PVal α) (d : Bool), b.eval v d = e.eval v d := by
+  obtain ⟨b, hb, _, _, hden⟩ := C01.exprToBdd_den e hsmall
+  exact ⟨b, hb, fun v d => by rw [bdd_default, hden, expr_default]⟩
+
+theorem bdd_form_checked (e : Expr α) (hsmall : e.inputs.length ≤ maxBddVars) :
+    ∃ b, exprToBdd e = .ok (.ok b) ∧
+      ∀ (v : PVal α), (∀ x ∈ e.vars, x ∈ v.keys) → b.evalChecked v = e.evalChecked v := by
+  obtain ⟨b, hb, _, hins, hden⟩ := C01.exprToBdd_den e hsmall
+  refine ⟨b, hb, fun v hall => ?_⟩
+  rw [expr_checked v e hall, bdd_checked v b (by
+    intro x hx
+    rw [hins] at hx
+    exact hall x ((mem_sortDedup x _).mp hx)), hden]
+end
 
 end BoolFn.C02
